@@ -36,6 +36,8 @@
 extern "C" {
 #endif
 
+struct url_handler;
+
 struct http_connection {
 	struct buffered_reader br;
 	http_parser parser;
@@ -44,6 +46,7 @@ struct http_connection {
 	unsigned int status_code;
 	bool is_local_connection;
 	unsigned int compression_level;
+	const struct url_handler *url_handler;
 };
 
 struct http_connection *alloc_http_connection(void);
